@@ -73,3 +73,12 @@ Properties/C07.vos Properties/C07.vok Properties/C07.required_vos: Properties/C0
 Properties/C08.vo Properties/C08.glob Properties/C08.v.beautified Properties/C08.required_vo: Properties/C08.v Base.vo Prim.vo
 Properties/C08.vio: Properties/C08.v Base.vio Prim.vio
 Properties/C08.vos Properties/C08.vok Properties/C08.required_vos: Properties/C08.v Base.vos Prim.vos
+Model/FloatCast.vo Model/FloatCast.glob Model/FloatCast.v.beautified Model/FloatCast.required_vo: Model/FloatCast.v Base.vo Prim.vo Model/Digit.vo Model/Core.vo Model/Shift.vo Model/AddSub.vo Model/Bits.vo
+Model/FloatCast.vio: Model/FloatCast.v Base.vio Prim.vio Model/Digit.vio Model/Core.vio Model/Shift.vio Model/AddSub.vio Model/Bits.vio
+Model/FloatCast.vos Model/FloatCast.vok Model/FloatCast.required_vos: Model/FloatCast.v Base.vos Prim.vos Model/Digit.vos Model/Core.vos Model/Shift.vos Model/AddSub.vos Model/Bits.vos
+Run/RunC14.vo Run/RunC14.glob Run/RunC14.v.beautified Run/RunC14.required_vo: Run/RunC14.v Base.vo Prim.vo Model/Core.vo Model/Shift.vo Model/AddSub.vo Model/Bits.vo Model/FloatCast.vo Run/RunBase.vo
+Run/RunC14.vio: Run/RunC14.v Base.vio Prim.vio Model/Core.vio Model/Shift.vio Model/AddSub.vio Model/Bits.vio Model/FloatCast.vio Run/RunBase.vio
+Run/RunC14.vos Run/RunC14.vok Run/RunC14.required_vos: Run/RunC14.v Base.vos Prim.vos Model/Core.vos Model/Shift.vos Model/AddSub.vos Model/Bits.vos Model/FloatCast.vos Run/RunBase.vos
+Properties/C14.vo Properties/C14.glob Properties/C14.v.beautified Properties/C14.required_vo: Properties/C14.v Base.vo Prim.vo
+Properties/C14.vio: Properties/C14.v Base.vio Prim.vio
+Properties/C14.vos Properties/C14.vok Properties/C14.required_vos: Properties/C14.v Base.vos Prim.vos
